@@ -336,6 +336,18 @@ func TestC11(t *testing.T) {
 				used = probeDec(func() (interface{}, error) { return d.Decode(q) })
 			}
 			fresh = probeDec(func() (interface{}, error) { return hessian.NewSerializer(tm, nm).ToObject(q) })
+			if used.isErr && fresh.isErr && used.err != fresh.err {
+				// which of several offending entries of a map is reported first follows Go's map
+				// iteration order: the text is only comparable if fresh instances agree among themselves
+				texts := map[string]bool{fresh.err: true}
+				for i := 0; i < 12; i++ {
+					f := probeDec(func() (interface{}, error) { return hessian.NewSerializer(tm, nm).ToObject(q) })
+					texts[f.err] = true
+				}
+				if texts[used.err] || len(texts) > 1 {
+					fresh.err = used.err // fresh instances do not agree among themselves: text not comparable
+				}
+			}
 			if m := c11Same(fmt.Sprintf("probe decode of %s", hexClip(q, 40)), used, fresh); m != "" {
 				msgs = append(msgs, m)
 			}
